@@ -288,7 +288,22 @@ def main(tier):
                 if tier == "quick" and op in ("write_kol", "write_koh", "press_release") and pr != pairs[0] and pr != pairs[-1]:
                     continue
                 cases.append((op, pr, ah))
-    results = common.pool_map(run_case, [(tier, c) for c in cases])
+    from engines.rsym import build
+
+    build.ensure_built()
+    build.image()
+    rs_cases = []
+    rs_pairs = [PAIRS[0], PAIRS[3]] if tier == "quick" else PAIRS
+    for pr in rs_pairs:
+        for ah in (True, False):
+            for op in RS_OPS:
+                if tier == "quick" and pr != PAIRS[0] and (op not in ("read_kil", "write_koh", "scan_tick") or not ah):
+                    continue
+                rs_cases.append((op, pr, ah))
+    # heavy cases first
+    rs_cases.sort(key=lambda c: 0 if c[0] == "scan_tick" else (1 if c[0] in ("read_kil", "injectx") else 2))
+    results = common.pool_map(run_rust_case, [(tier, c) for c in rs_cases]) + common.pool_map(run_case, [(tier, c) for c in cases])
+    cases = cases + [("rust:" + c[0], c[1], c[2]) for c in rs_cases]
     tot = {k: 0 for k in ("paths", "obligations", "discharged", "unknown")}
     solver_time = 0.0
     samples, inconcl, cex = [], [], {}
@@ -321,13 +336,347 @@ def main(tier):
         "samples": samples[:8], "checker_cmd": "./check C14 --tier " + tier, "trusted_base": ["z3 5.1.0", "engines/pysym", "kbd_spec in checks/keyboard_check.py"],
         "explanation": "Step relations decided by z3 from arbitrary key/FIFO states: KIL shows exactly the debounced keys on strobed columns (both polarities, KOL and KOH columns); per scan tick each key follows the debounce/repeat/release automaton with at most one event, press only on entering and release only on leaving the debounced state; idle keys emit nothing; the ring buffer never exceeds 7 entries, drops only its oldest entry and keeps order.",
         "solver_time_s": round(solver_time, 2),
-        "functions_encoded": ["pce500.keyboard_matrix.KeyboardMatrix.scan_tick/_update_key_state/_compute_kil/_active_columns/_enqueue_event/fifo_snapshot/read_kil/write_kol/write_koh/press_key/release_key"],
+        "functions_encoded": ["pce500.keyboard_matrix.KeyboardMatrix.scan_tick/_update_key_state/_compute_kil/_active_columns/_enqueue_event/fifo_snapshot/read_kil/write_kol/write_koh/press_key/release_key",
+                              "Rust (LLVM IR): sc62015_core::keyboard::KeyboardMatrix::new/load_snapshot_state/scan_tick/compute_kil/active_columns/enqueue_event/consume_pending_events/handle_read/handle_write/press_matrix_code/release_matrix_code/inject_matrix_event/write_fifo_to_memory, MemoryImage::read/write_internal_byte"],
         "bounds": {"keys": "2 symbolic keys per case (same row, same column, unrelated, KOH columns), all other keys idle", "operations": "1 operation from an arbitrary state (induction)",
                    "thresholds": "6-bit symbolic debounce/release/repeat settings, 8-bit tick counters",
-                   "outside": "KEYI gating lives in PCE500Emulator (machine level); Rust keyboard.rs is outside this check until the rsym engine carries it"},
+                   "outside": "Python: KEYI gating lives in PCE500Emulator (machine level). Rust: keyi_on_any_press/raw_kil/disable_fifo_mirroring modes at their defaults; tick_timers_with_keyboard (timer.rs) glue is covered by C13's Rust half only for the timers",
+                   "rust": "one operation of sc62015_core::keyboard::KeyboardMatrix (scan_tick, handle_read, handle_write, press/release_matrix_code, inject_matrix_event, write_fifo_to_memory) from an arbitrary state of the two keys, thresholds (6 bit), strobes, event ring (any head/count/contents), irq count and ISR, loaded through load_snapshot_state"},
     }
     assumptions = ["strobe bits are symbolic on the columns of the two chosen keys and a fixed inactive background elsewhere",
                    "scan_tick is analysed with an empty FIFO; the ring-buffer laws are decided separately on _enqueue_event from an arbitrary ring state"]
     common.write_evidence("C14", tier, "other", coverage, assumptions, wall, len(rep.violations))
     print(f"C14 {tier}: cases={len(cases)} paths={tot['paths']} obligations={tot['obligations']} discharged={tot['discharged']} cex={len(cex)} solver={solver_time:.1f}s wall={wall:.1f}s")
     return code
+
+
+# ------------------------------------------------------------------ Rust half (sc62015_core::keyboard::KeyboardMatrix via rsym)
+
+RS_OPS = ["scan_tick", "read_kil", "write_kol", "write_koh", "press", "release", "inject0", "inject1", "injectx", "write_fifo", "read_other"]
+
+
+def _rs_ring_enqueue(st, byte, cond):
+    """drop-oldest ring of capacity 8: st = (arr BV3->BV8, head BV3, count BV4)."""
+    arr, head, count = st
+    full = count == 8
+    head1 = z3.If(full, head + 1, head)
+    count1 = z3.If(full, count - 1, count)
+    tail = head1 + z3.Extract(2, 0, count1)
+    arr2 = z3.Store(arr, tail, byte)
+    return (z3.If(cond, arr2, arr), z3.If(cond, head1, head), z3.If(cond, count1 + 1, count))
+
+
+def key_spec_rust(k, thr, rep_enabled):
+    """As key_spec, with the Rust model's repeat gate (repeat_enabled flag instead of interval > 0)."""
+    act = z3.And(k["pressed"], k["strobed"])
+    pt1 = k["pt"] + 1
+    reach = z3.UGE(pt1, thr["press_threshold"])
+    press_evt = z3.And(act, z3.Not(k["deb"]), reach)
+    rp_dec = z3.If(z3.UGT(k["rp"], bv(0, 16)), k["rp"] - 1, k["rp"])
+    rep_on = z3.And(act, k["deb"], rep_enabled)
+    repeat_evt = z3.And(rep_on, rp_dec == 0)
+    rt1 = k["rt"] + 1
+    release_evt = z3.And(z3.Not(act), k["deb"], z3.UGE(rt1, thr["release_threshold"]))
+    deb2 = z3.If(press_evt, z3.BoolVal(True), z3.If(release_evt, z3.BoolVal(False), k["deb"]))
+    pt2 = z3.If(act, z3.If(k["deb"], k["pt"], z3.If(reach, thr["press_threshold"], pt1)), bv(0, 16))
+    rt2 = z3.If(act, z3.If(k["deb"], bv(0, 16), z3.If(reach, bv(0, 16), k["rt"])), z3.If(k["deb"], z3.If(release_evt, bv(0, 16), rt1), k["rt"]))
+    rp2 = z3.If(press_evt, thr["repeat_delay"], z3.If(rep_on, z3.If(repeat_evt, thr["repeat_interval"], rp_dec), z3.If(release_evt, bv(0, 16), k["rp"])))
+    rp2 = z3.If(z3.And(z3.Not(k["pressed"]), z3.Not(deb2)), bv(0, 16), rp2)
+    return deb2, pt2, rt2, rp2, press_evt, repeat_evt, release_evt
+
+
+def _vars_of(t):
+    out, seen, todo = set(), set(), [t]
+    while todo:
+        x = todo.pop()
+        if x.get_id() in seen:
+            continue
+        seen.add(x.get_id())
+        if z3.is_const(x) and x.decl().kind() == z3.Z3_OP_UNINTERPRETED:
+            out.add(str(x))
+        todo.extend(x.children())
+    return out
+
+
+def run_rust_case(item):
+    tier, (op, pair, active_high) = item
+    X.setup()
+    from engines.rsym import build, interp
+    from pce500.keyboard_matrix import KEY_LOCATIONS
+
+    img, _b = build.image()
+    key = f"rust:{op}:{pair[0]}+{pair[1]}:{'high' if active_high else 'low'}"
+    res = {"key": key, "paths": 0, "obligations": 0, "discharged": 0, "unknown": 0, "cex": [], "solver_time": 0.0, "samples": [], "inconclusive": []}
+    bg = 0x0000 if active_high else 0xFFFF
+    B = z3.BitVec
+    ins = {}
+    keys = {}
+    for i, name in enumerate(pair):
+        loc = KEY_LOCATIONS[name]
+        base = 300 + 40 * i
+        ins[base] = len(name)
+        for j, ch in enumerate(name.encode()):
+            ins[base + 1 + j] = ch
+        b = 400 + 8 * i
+        ins[b], ins[b + 1] = z3.ZeroExt(31, B(f"pressed{i}", 1)), z3.ZeroExt(31, B(f"deb{i}", 1))
+        ins[b + 2], ins[b + 3], ins[b + 4] = z3.ZeroExt(24, B(f"pt{i}", 8)), z3.ZeroExt(24, B(f"rt{i}", 8)), z3.ZeroExt(24, B(f"rp{i}", 8))
+        keys[name] = {"col": loc.column, "row": loc.row, "pressed": B(f"pressed{i}", 1) == 1, "deb": B(f"deb{i}", 1) == 1, "pt": z3.ZeroExt(8, B(f"pt{i}", 8)),
+                      "rt": z3.ZeroExt(8, B(f"rt{i}", 8)), "rp": z3.ZeroExt(8, B(f"rp{i}", 8)), "code": (loc.column << 3) | loc.row, "i": i}
+    cols = sorted({k["col"] for k in keys.values()})
+    word = z3.BitVecVal(bg, 16)
+    sbits = {}
+    for c in cols:
+        sbits[c] = B(f"strobe{c}", 1)
+        word = (word & ~(1 << c)) | (z3.ZeroExt(15, sbits[c]) << c)
+    word = z3.simplify(word)
+    ins[420], ins[421] = z3.ZeroExt(24, z3.Extract(7, 0, word)), z3.ZeroExt(24, z3.Extract(15, 8, word))
+    ins[422] = 1 if active_high else 0
+    thr = {}
+    for idx, (name, lo) in zip((423, 424, 425, 426), (("press_threshold", 1), ("release_threshold", 1), ("repeat_delay", 0), ("repeat_interval", 1))):
+        ins[idx] = z3.ZeroExt(26, B(name, 6))
+        thr[name] = z3.ZeroExt(10, B(name, 6))
+    rep_en = B("rep_en", 1)
+    ins[427] = z3.ZeroExt(31, rep_en)
+    head, count = B("head", 3), B("count", 4)
+    ins[430] = z3.ZeroExt(28, count)
+    ins[431] = z3.ZeroExt(29, head)
+    ins[432] = z3.ZeroExt(29, head + z3.Extract(2, 0, count))
+    irq0, isr0 = B("irq0", 16), B("isr0", 8)
+    ins[433], ins[434] = z3.ZeroExt(16, irq0), z3.ZeroExt(24, isr0)
+    farr = z3.K(z3.BitVecSort(3), bv(0, 8))
+    for j in range(8):
+        ins[440 + j] = z3.ZeroExt(24, B(f"f{j}", 8))
+        farr = z3.Store(farr, bv(j, 3), B(f"f{j}", 8))
+    for k in keys.values():
+        bit = sbits[k["col"]]
+        k["strobed"] = (bit == 1) if active_high else (bit == 0)
+    a1, a2, a3 = B("a1", 8), B("a2", 8), B("a3", 1)
+    assumptions = [z3.ULE(count, 8), z3.UGE(B("press_threshold", 6), 1), z3.UGE(B("release_threshold", 6), 1), z3.UGE(B("repeat_interval", 6), 1)]
+    code0 = keys[pair[0]]["code"]
+    opn = {"scan_tick": 0, "read_kil": 1, "read_other": 1, "write_kol": 2, "write_koh": 2, "press": 3, "release": 4, "inject0": 5, "inject1": 5, "injectx": 5, "write_fifo": 6}[op]
+    ins[450] = opn
+    nb = {}
+    if op == "scan_tick":
+        ins[451] = z3.ZeroExt(31, a3)
+    elif op == "read_kil":
+        ins[451] = 0xF2
+    elif op == "read_other":
+        ins[451] = z3.ZeroExt(24, a1)
+        assumptions.append(z3.Or(a1 == 0xF0, a1 == 0xF1, a1 == 0xF3, a1 == 0x00))
+    elif op in ("write_kol", "write_koh"):
+        ins[451] = 0xF0 if op == "write_kol" else 0xF1
+        nword = z3.BitVecVal(bg, 16)
+        for c in cols:
+            nb[c] = B(f"nstrobe{c}", 1)
+            nword = (nword & ~(1 << c)) | (z3.ZeroExt(15, nb[c]) << c)
+        nword = z3.simplify(nword)
+        ins[452] = z3.ZeroExt(24, z3.Extract(7, 0, nword) if op == "write_kol" else z3.Extract(15, 8, nword))
+    elif op in ("press", "release"):
+        ins[451] = code0
+    elif op.startswith("inject"):
+        # injected code: one of the two keys or an idle cell of the matrix
+        icode = {"inject0": code0, "inject1": keys[pair[1]]["code"], "injectx": 0x7F}[op]
+        ins[451], ins[452], ins[453] = icode, z3.ZeroExt(24, a2), z3.ZeroExt(31, a3)
+        assumptions.append(a1 == icode)
+    elif op == "write_fifo":
+        ins[451] = z3.ZeroExt(31, a3)
+
+    def fn():
+        out = {}
+        cells = {}
+        post = {}
+
+        def vout(m, i, v):
+            if i == 99:
+                # per-key automaton cells: the one heap byte whose contents mention only that input
+                for a, c in m.mem.items():
+                    if type(c) is int or a < interp.HEAP_BASE or a >= m.heap:
+                        continue
+                    t = z3.simplify(c if type(c) is not tuple else z3.Extract(8 * c[1] + 7, 8 * c[1], c[0]))
+                    vs = _vars_of(t)
+                    if len(vs) == 1:
+                        (nm,) = vs
+                        if nm[:-1] in ("pressed", "deb", "pt", "rt", "rp") and nm[-1] in "01":
+                            cells.setdefault(nm, []).append(a)
+                        elif nm[0] == "f" and nm[1:].isdigit() and t.size() == 8:
+                            cells.setdefault(nm, []).append(a)
+                    # ring indices are usize cells: byte 0 of a 64-bit value over head / count / both
+                    if type(c) is tuple and c[1] == 0 and c[0].size() == 64:
+                        if vs == {"head"}:
+                            cells.setdefault("ring.head", []).append(a)
+                        elif vs == {"count"}:
+                            cells.setdefault("ring.count", []).append(a)
+                        elif vs == {"head", "count"}:
+                            cells.setdefault("ring.tail", []).append(a)
+                for nm in [f"f{j}" for j in range(8)] + ["ring.head", "ring.count", "ring.tail"]:
+                    if len(cells.get(nm, [])) != 1:
+                        raise RuntimeError(f"event ring cell {nm} not located uniquely: {cells.get(nm)}")
+                for i_ in (0, 1):
+                    for f in ("pressed", "deb", "pt", "rt", "rp"):
+                        if len(cells.get(f"{f}{i_}", [])) != 1:
+                            raise RuntimeError(f"key cell {f}{i_} not located uniquely: {cells.get(f'{f}{i_}')}")
+            elif i == 98:
+                for nm, (a,) in cells.items():
+                    post[nm] = m.load_bytes(a, 8 if nm.startswith("ring.") else 1)
+            else:
+                out[i] = v
+
+        hooks = {"verif_in": lambda m, i: ins.get(i, 0), "verif_out": vout, "verif_load": lambda m, a: 0, "verif_store": lambda m, a, v: None}
+        m = interp.Machine(img, hooks)
+        m.STEP_LIMIT = 20_000_000
+        m.run(img.mod.functions["harness_kb"], [])
+        return out, m.steps, post
+
+    try:
+        paths, stats = explore(fn, max_paths=4000, deadline_s=600, timeout_ms=10000, assumptions=assumptions)
+    except core.PathLimit as e:
+        res["inconclusive"].append(str(e))
+        return res
+    res["paths"] = len(paths)
+    res["solver_time"] += stats.solver_time
+    T = interp.to_term
+    ring0 = (farr, head, count)
+    keyi0 = count != 0
+    for p in paths:
+        if p.status != "ok":
+            if p.status == "inconclusive":
+                res["inconclusive"].append(p.detail[:100])
+            else:
+                res["cex"].append({"key": f"{key}|raises|{type(p.exc).__name__}", "summary": repr(p.exc)[:200], "payload": None})
+            continue
+        out, steps, post = p.value
+        checks = []
+        o32 = lambda i: T(out[i], 32)  # noqa: E731
+
+        def kpost(i):
+            return {"pressed": T(post[f"pressed{i}"], 8) != 0, "deb": T(post[f"deb{i}"], 8) != 0, "pt": z3.ZeroExt(8, T(post[f"pt{i}"], 8)),
+                    "rt": z3.ZeroExt(8, T(post[f"rt{i}"], 8)), "rp": z3.ZeroExt(8, T(post[f"rp{i}"], 8))}
+
+        def ring_checks(ring, label=""):
+            arr, hd, cnt = ring
+            checks.append((f"fifo-length{label}", o32(4) != z3.ZeroExt(28, cnt)))
+            checks.append((f"fifo-length-bounded{label}", z3.UGT(o32(4), 8)))
+            ph, pc_, pt_ = T(post["ring.head"], 64), T(post["ring.count"], 64), T(post["ring.tail"], 64)
+            checks.append((f"fifo-count-cell{label}", pc_ != z3.ZeroExt(60, cnt)))
+            checks.append((f"fifo-head{label}", z3.And(cnt != 0, ph != z3.ZeroExt(61, hd))))
+            checks.append((f"fifo-tail-is-head-plus-count{label}", z3.Or(z3.UGT(ph, 7), z3.UGT(pt_, 7), z3.Extract(2, 0, pt_) != z3.Extract(2, 0, ph) + z3.Extract(2, 0, pc_))))
+            # live entries (oldest first): slot (head + j) mod 8 for j < count
+            parr = z3.K(z3.BitVecSort(3), bv(0, 8))
+            for j in range(8):
+                parr = z3.Store(parr, bv(j, 3), T(post[f"f{j}"], 8))
+            jj = z3.BitVec("x_slot", 3)
+            checks.append((f"fifo-drops-only-oldest-keeps-order{label}",
+                           z3.And(z3.ULT(z3.ZeroExt(1, jj), cnt), z3.Select(parr, z3.Extract(2, 0, ph) + jj) != z3.Select(arr, hd + jj))))
+
+        def unchanged_keys(which=(0, 1), fields=("pressed", "deb", "pt", "rt", "rp")):
+            for i in which:
+                kp, k0 = kpost(i), keys[pair[i]]
+                for f in fields:
+                    checks.append((f"key{i}.{f}-unchanged", kp[f] != k0[f]))
+
+        def keyi_check(keyi_spec, cnt):
+            checks.append(("keyi-raised-only-when-latched-and-events-pending", ((o32(10) & 4) != 0) != z3.And(keyi_spec, cnt != 0)))
+
+        if op == "scan_tick":
+            ring = ring0
+            n_evt = bv(0, 16)
+            any_evt = z3.BoolVal(False)
+            post_deb = {}
+            for name in sorted(pair, key=lambda n: keys[n]["code"]):
+                k = keys[name]
+                i = k["i"]
+                d2, pt2, rt2, rp2, pe, re_, rl = key_spec_rust(k, thr, rep_en == 1)
+                kp = kpost(i)
+                post_deb[name] = d2
+                checks += [(f"key{i}:pressed-unchanged", kp["pressed"] != k["pressed"]), (f"key{i}:debounced", kp["deb"] != d2), (f"key{i}:press_ticks", kp["pt"] != pt2),
+                           (f"key{i}:release_ticks", kp["rt"] != rt2), (f"key{i}:repeat_ticks", kp["rp"] != rp2),
+                           (f"key{i}:at-most-one-event-per-tick", z3.Or(z3.And(pe, re_), z3.And(pe, rl), z3.And(re_, rl)))]
+                ring = _rs_ring_enqueue(ring, bv(k["code"], 8), z3.Or(pe, re_))
+                ring = _rs_ring_enqueue(ring, bv(k["code"] | 0x80, 8), rl)
+                ev = z3.Or(pe, re_, rl)
+                n_evt = n_evt + z3.If(ev, bv(1, 16), bv(0, 16))
+                any_evt = z3.Or(any_evt, ev)
+            checks.append(("event-count", o32(1) != z3.ZeroExt(16, n_evt)))
+            ring_checks(ring)
+            cirq = a3 == 1
+            checks.append(("irq-count", o32(3) != z3.ZeroExt(16, irq0) + z3.If(cirq, z3.ZeroExt(16, n_evt), bv(0, 32))))
+            checks.append(("kil-latch", o32(7) != z3.ZeroExt(24, kil_spec(keys, lambda c, k: post_deb[c]))))
+            checks.append(("isr-untouched-by-scan", o32(2) != z3.ZeroExt(24, isr0)))
+            keyi_check(z3.If(ring[2] == 0, z3.BoolVal(False), z3.If(z3.And(cirq, any_evt), z3.BoolVal(True), keyi0)), ring[2])
+        elif op == "read_kil":
+            val = o32(1)
+            checks.append(("kil-read-returns-a-value", z3.UGT(val, 0xFF)))
+            rows = {}
+            for name, k in keys.items():
+                rows.setdefault(k["row"], []).append(k)
+            for r in range(8):
+                bit = (val >> r) & 1
+                ks = rows.get(r, [])
+                may = z3.Or(*[z3.And(k["strobed"], z3.Or(k["pressed"], k["deb"])) for k in ks]) if ks else z3.BoolVal(False)
+                must = z3.Or(*[z3.And(k["strobed"], k["pressed"], k["deb"]) for k in ks]) if ks else z3.BoolVal(False)
+                checks.append((f"kil-row{r}-never-shown-without-held-or-recently-released-key", z3.And(bit == 1, z3.Not(may))))
+                if ks:
+                    checks.append((f"kil-row{r}-always-shown-for-debounced-held-key", z3.And(must, bit == 0)))
+        elif op == "read_other":
+            want = z3.If(a1 == 0xF0, z3.ZeroExt(24, z3.Extract(7, 0, word)), z3.If(a1 == 0xF1, z3.ZeroExt(24, z3.Extract(15, 8, word)), bv(0x100, 32)))
+            checks.append(("read-kol-koh-or-none", o32(1) != want))
+            unchanged_keys()
+            ring_checks(ring0)
+        elif op in ("write_kol", "write_koh"):
+            def strobed_after(k):
+                c = k["col"]
+                changed = (c < 8) if op == "write_kol" else (c >= 8)
+                bit = nb[c] if changed else sbits[c]
+                return (bit == 1) if active_high else (bit == 0)
+            want = bv(0, 8)
+            for name, k in keys.items():
+                want = want | z3.If(z3.And(strobed_after(k), k["deb"]), bv(1 << k["row"], 8), bv(0, 8))
+            checks.append(("kil-follows-new-strobe", o32(7) != z3.ZeroExt(24, want)))
+            nv = z3.Extract(7, 0, T(ins[452], 32))
+            lo_, hi_ = (nv, z3.Extract(15, 8, word)) if op == "write_kol" else (z3.Extract(7, 0, word), nv)
+            checks.append(("kol-register", o32(8) != z3.ZeroExt(24, lo_)))
+            checks.append(("koh-register", o32(9) != z3.ZeroExt(24, hi_)))
+            checks.append(("register-mirrored-to-imem", o32(5 if op == "write_kol" else 6) != z3.ZeroExt(24, nv)))
+            unchanged_keys()
+            ring_checks(ring0)
+        elif op == "press":
+            kp, k0 = kpost(0), keys[pair[0]]
+            checks.append(("press-sets-pressed", z3.Not(kp["pressed"])))
+            checks.append(("press-keeps-debounced", kp["deb"] != k0["deb"]))
+            unchanged_keys(which=(1,))
+            ring_checks(ring0)
+        elif op == "release":
+            kp, k0 = kpost(0), keys[pair[0]]
+            checks.append(("release-clears-pressed", kp["pressed"]))
+            checks.append(("release-keeps-debounced-until-interval", kp["deb"] != k0["deb"]))
+            unchanged_keys(which=(1,))
+            ring_checks(ring0)
+        elif op.startswith("inject"):
+            byte = (a1 & 0x7F) | z3.If((a2 & 1) == 1, bv(0x80, 8), bv(0, 8))
+            ring = _rs_ring_enqueue(ring0, byte, z3.BoolVal(True))
+            ring_checks(ring)
+            checks.append(("irq-count", o32(3) != z3.ZeroExt(16, irq0) + 1))
+            checks.append(("keyi-only-when-keyboard-interrupts-enabled", o32(2) != z3.ZeroExt(24, z3.If(a3 == 1, isr0 | 4, isr0))))
+        elif op == "write_fifo":
+            checks.append(("keyi-only-when-events-pending-and-enabled", o32(2) != z3.ZeroExt(24, z3.If(z3.And(a3 == 1, keyi0, count != 0), isr0 | 4, isr0))))
+            unchanged_keys()
+            ring_checks(ring0)
+        for name, neg in checks:
+            res["obligations"] += 1
+            r_, m_, dt = X.solve(list(p.constraints) + assumptions, [neg], fast=True)
+            res["solver_time"] += dt
+            if r_ == "unsat":
+                res["discharged"] += 1
+                if len(res["samples"]) < 1:
+                    res["samples"].append({"case": key, "obligation": name, "rust_ir_steps": steps, "negated_post_head": neg.sexpr()[:140]})
+            elif r_ == "sat":
+                model = {str(d): m_[d].as_long() for d in m_.decls() if hasattr(m_[d], "as_long")}
+                inputs = {}
+                for i_, v_ in ins.items():
+                    inputs[str(i_)] = v_ if type(v_) is int else m_.eval(v_, model_completion=True).as_long()
+                payload = {"property": "C14", "kind": "keyboard", "rust": True, "key": f"{key}|{name}", "op": op, "pair": list(pair), "active_high": active_high,
+                           "model": model, "inputs": inputs, "obligation": name}
+                res["cex"].append({"key": f"rust:{op}|{'high' if active_high else 'low'}|{name}", "summary": f"{key}: {name}", "payload": payload})
+            else:
+                res["unknown"] += 1
+    return res
